@@ -230,65 +230,7 @@ func runC07(p *Prog, r *Report) {
 		r.Check(ok, "wire.request."+w.dst, "R-WIRE", p.Pos(expandCases.Pos()), "Request."+w.dst+" ← cfgCase."+w.src+" before the permutation is stored", "the permutation's request does not take "+w.dst+" from the config case on every path")
 	}
 	// TLS markers (re)written on every path, with the right polarity
-	if store != nil {
-		cert, creds := p.Field(pkgGen, "ClientCompatRequest", "ServerTlsCert"), p.Field(pkgGen, "ClientCompatRequest", "ClientTlsCreds")
-		var clone ssa.Instruction
-		eachInstr(expandCases, func(in ssa.Instruction) {
-			if c := callCommon(in); c != nil && isCallToNamed(c, "google.golang.org/protobuf/proto", "", "Clone") {
-				clone = in
-			}
-		})
-		okMarkers := clone != nil
-		why := ""
-		if okMarkers {
-			for _, f := range []*types.Var{cert, creds} {
-				ok, _ := mustPassBefore(clone, store, func(in ssa.Instruction) bool {
-					st, ok := in.(*ssa.Store)
-					if !ok {
-						return false
-					}
-					fa, ok := st.Addr.(*ssa.FieldAddr)
-					return ok && fieldVar(fa.X.Type(), fa.Field) == f
-				})
-				if !ok {
-					okMarkers = false
-					why += " " + f.Name() + " is not rewritten on every path from the clone to the store;"
-				}
-			}
-			useTLS := func(b bool) func(Atom) bool {
-				return func(a Atom) bool { kk, neg, ok := genericKey(a); return ok && kk == "configCase.UseTLS" && neg != b }
-			}
-			useCC := func(b bool) func(Atom) bool {
-				return func(a Atom) bool {
-					kk, neg, ok := genericKey(a)
-					return ok && kk == "configCase.UseTLSClientCerts" && neg != b
-				}
-			}
-			for _, st := range storesToField([]*ssa.Function{expandCases}, cert) {
-				r.Sites++
-				as := atomsAt(st.Instr.Block())
-				if isNilConst(st.Val) != hasAtom(as, useTLS(false)) || !isNilConst(st.Val) && !hasAtom(as, useTLS(true)) {
-					okMarkers = false
-					why += " ServerTlsCert is set/cleared on the wrong UseTLS edge;"
-				}
-			}
-			for _, st := range storesToField([]*ssa.Function{expandCases}, creds) {
-				r.Sites++
-				as := atomsAt(st.Instr.Block())
-				set := !isNilConst(st.Val)
-				if set && !(hasAtom(as, useTLS(true)) && hasAtom(as, useCC(true))) {
-					okMarkers = false
-					why += " ClientTlsCreds is set outside (UseTLS ∧ UseTLSClientCerts);"
-				}
-				if !set && !(hasAtom(as, useTLS(false)) || hasAtom(as, useCC(false))) {
-					okMarkers = false
-					why += " ClientTlsCreds is cleared on an edge where client certs are in use;"
-				}
-			}
-		}
-		r.Check(okMarkers, "wire.tls-markers", "R-WIRE", p.Pos(expandCases.Pos()), "ServerTlsCert / ClientTlsCreds are written on every path: set on the UseTLS (∧ UseTLSClientCerts) edge, nil otherwise",
-			"the permutation's TLS markers are not rewritten on every path:"+why+" a template carrying TLS fields would be grouped under the wrong server instance")
-	}
+	tlsMarkerRule(p, r)
 	// ---- name-axes ----
 	axes := map[string]string{ // configCase field formatted -> guard key (must be the only atom)
 		"Version": "len(TestSuite.RelevantHttpVersions)==1", "Protocol": "len(TestSuite.RelevantProtocols)==1", "Codec": "len(TestSuite.RelevantCodecs)==1",
@@ -516,4 +458,86 @@ func shapeOf(v ssa.Value) string {
 		}
 	}
 	return strings.TrimSpace(path(v))
+}
+
+// tlsMarkerRule: in expandCases the permutation's TLS markers (ServerTlsCert,
+// ClientTlsCreds) are rewritten on every path from the clone to the store: set
+// on the UseTLS (∧ UseTLSClientCerts) edge, nil otherwise. Shared by C07
+// (population of permutations) and C05 (the server instance a permutation is
+// grouped under is derived from exactly these fields).
+func tlsMarkerRule(p *Prog, r *Report) {
+	expandCases := p.Func(pkgCC, "testCaseLibrary", "expandCases")
+	if expandCases == nil {
+		r.Undecided("wire.tls-markers", "R-WIRE", "expandCases not found")
+		return
+	}
+	r.Func(funcName(expandCases))
+	tcMap := p.Field(pkgCC, "testCaseLibrary", "testCases")
+	var store *ssa.MapUpdate
+	eachInstr(expandCases, func(in ssa.Instruction) {
+		if mu, ok := in.(*ssa.MapUpdate); ok && loadedField(mu.Map) == tcMap {
+			store = mu
+		}
+	})
+	if store == nil {
+		r.Undecided("wire.tls-markers", "R-WIRE", "store into lib.testCases not found")
+		return
+	}
+	cert, creds := p.Field(pkgGen, "ClientCompatRequest", "ServerTlsCert"), p.Field(pkgGen, "ClientCompatRequest", "ClientTlsCreds")
+	var clone ssa.Instruction
+	eachInstr(expandCases, func(in ssa.Instruction) {
+		if c := callCommon(in); c != nil && isCallToNamed(c, "google.golang.org/protobuf/proto", "", "Clone") {
+			clone = in
+		}
+	})
+	okMarkers := clone != nil
+	why := ""
+	if okMarkers {
+		for _, f := range []*types.Var{cert, creds} {
+			ok, _ := mustPassBefore(clone, store, func(in ssa.Instruction) bool {
+				st, ok := in.(*ssa.Store)
+				if !ok {
+					return false
+				}
+				fa, ok := st.Addr.(*ssa.FieldAddr)
+				return ok && fieldVar(fa.X.Type(), fa.Field) == f
+			})
+			if !ok {
+				okMarkers = false
+				why += " " + f.Name() + " is not rewritten on every path from the clone to the store;"
+			}
+		}
+		useTLS := func(b bool) func(Atom) bool {
+			return func(a Atom) bool { kk, neg, ok := genericKey(a); return ok && kk == "configCase.UseTLS" && neg != b }
+		}
+		useCC := func(b bool) func(Atom) bool {
+			return func(a Atom) bool {
+				kk, neg, ok := genericKey(a)
+				return ok && kk == "configCase.UseTLSClientCerts" && neg != b
+			}
+		}
+		for _, st := range storesToField([]*ssa.Function{expandCases}, cert) {
+			r.Sites++
+			as := atomsAt(st.Instr.Block())
+			if isNilConst(st.Val) != hasAtom(as, useTLS(false)) || !isNilConst(st.Val) && !hasAtom(as, useTLS(true)) {
+				okMarkers = false
+				why += " ServerTlsCert is set/cleared on the wrong UseTLS edge;"
+			}
+		}
+		for _, st := range storesToField([]*ssa.Function{expandCases}, creds) {
+			r.Sites++
+			as := atomsAt(st.Instr.Block())
+			set := !isNilConst(st.Val)
+			if set && !(hasAtom(as, useTLS(true)) && hasAtom(as, useCC(true))) {
+				okMarkers = false
+				why += " ClientTlsCreds is set outside (UseTLS ∧ UseTLSClientCerts);"
+			}
+			if !set && !(hasAtom(as, useTLS(false)) || hasAtom(as, useCC(false))) {
+				okMarkers = false
+				why += " ClientTlsCreds is cleared on an edge where client certs are in use;"
+			}
+		}
+	}
+	r.Check(okMarkers, "wire.tls-markers", "R-WIRE", p.Pos(expandCases.Pos()), "ServerTlsCert / ClientTlsCreds are written on every path: set on the UseTLS (∧ UseTLSClientCerts) edge, nil otherwise",
+		"the permutation's TLS markers are not rewritten on every path:"+why+" a template carrying TLS fields would be grouped under the wrong server instance")
 }
